@@ -110,7 +110,9 @@ def check_tree(e, spec, ops, operators):
     for rho in corners(vars_, ops):
         full = dict(rho)
         for v in all_vars([n.type for n in nodes]):
-            full.setdefault(id(v), (G.UNIT, ()))
+            # variables beyond the first ten are not enumerated: one admissible choice (a bound they report, Unit if none)
+            b = v.lower or v.upper
+            full.setdefault(id(v), (I.op_index(b, ops), ()) if b else (G.UNIT, ()))
         for n in nodes:
             if not isinstance(n, E.Application):
                 continue
